@@ -495,6 +495,14 @@ class CallMixin:
                 eqs = [(uf(key + ".kind", Ref, I)(r), z3.IntVal(2)), (uf(key + ".pulse", Ref, Ref)(r), val.t)]
             else:
                 raise OutOfSubset(f"slot type from {val!r}")
+        elif isinstance(ty, tuple) and ty[0] == "opt" and isinstance(ty[1], tuple) and ty[1][0] == "list":
+            ety = ty[1][1]
+            if val is None:
+                eqs = [(uf(key + "?", Ref, B)(r), z3.BoolVal(True))]
+            else:
+                isn = val.none if isinstance(val, OptV) else z3.BoolVal(False)
+                sv = self.as_seq(val.val if isinstance(val, OptV) else val, st, ety)
+                eqs = [(uf(key + "?", Ref, B)(r), isn), (uf(key + ".len", Ref, I)(r), sv.n), (uf(key + ".at", Ref, z3.ArraySort(I, sort_of(ety)))(r), sv.arr)]
         elif isinstance(ty, tuple) and ty[0] == "opt":
             if val is None:
                 eqs = [(uf(key + "?", Ref, B)(r), z3.BoolVal(True))]
